@@ -617,6 +617,36 @@ pub fn main(args: &[String]) -> i32 {
                 let (toks, _) = gen_toks(&mut rng, &t, n, 3, 0, 0.15, 0.1, true);
                 (t, to_text(&mut rng, &toks, 1.0), family.clone())
             }
+            "repeat" => {
+                // one variable occurring very often (counter widths: 255 | 256 | 257), a second one a few times, literals in between
+                let tab = vec![
+                    OpDesc { name: intern("+"), bin: true, un: false, constant: false, prio: 0, comm: true },
+                    OpDesc { name: intern("*"), bin: true, un: false, constant: false, prio: 50, comm: true },
+                    OpDesc { name: intern("-"), bin: true, un: false, constant: false, prio: 0, comm: false },
+                ];
+                let k = [2usize, 17, 64, 65, 127, 128, 254, 255, 256, 257, 258, 300][(i as usize) % 12];
+                let mut s = String::new();
+                // products of up to 16 factors joined by + / -: the tree stays shallow (TLC's JSON reader nests at most 255 deep)
+                let mut placed = 0;
+                let mut in_group = 0;
+                while placed < k {
+                    if in_group > 0 {
+                        if in_group >= 16 || rng.random_bool(0.1) {
+                            s.push_str([" + ", " - ", " + "].choose(&mut rng).unwrap());
+                            in_group = 0;
+                        } else {
+                            s.push_str(" * ");
+                        }
+                    }
+                    in_group += 1;
+                    match rng.random_range(0..12) {
+                        0 => s.push_str("w"),
+                        1 => s.push_str(&rng.random_range(1..9).to_string()),
+                        _ => { s.push_str("v"); placed += 1; }
+                    }
+                }
+                (tab, s, format!("repeat{k}"))
+            }
             "arr-val" => {
                 let t = real_table("val");
                 (t, gen_arr_text(&mut rng), family.clone())
